@@ -1,6 +1,7 @@
 package core
 
 import (
+	"math"
 	"net"
 	"encoding/hex"
 	"fmt"
@@ -87,6 +88,10 @@ func dumpVal(sb *strings.Builder, v interface{}, oids oidMap) error {
 		for _, m := range ms {
 			if m.Score != m.Score {
 				return fmt.Errorf("NaN value")
+			}
+			if m.Score == 0 && math.Signbit(float64(m.Score)) {
+				// IEEE negative zero (0 * -1): outside the exact-decimal score domain of the model
+				return fmt.Errorf("negative zero score")
 			}
 			fmt.Fprintf(sb, " %s %s", X(string(m.Value)), X(fmtFloat(float64(m.Score))))
 		}
